@@ -902,6 +902,15 @@ package genql
 //@ func (*Query).exec
 //@   at-call append:copy.postProcessors assert the-deferred-work-of-the-copy-is-adopted-after-its-run[C11,C12,C14]: called(exec)
 //@   at-call Add assert the-calls-the-copy-started-are-awaited[C14]: called(exec)
+// C05: the window is what the two numerals say, read as decimal numbers (strconv.Atoi, a library contract), whichever
+// spelling the parser met; without a LIMIT clause nothing is set (the calls of BuildLiteral are numbered by site: 1 reads
+// the offset, 2 the count)
+//@ func BuildLimit
+//@   ensures no-clause-no-window[C05]: limit == nil ==> result == nil && query.limitDefinition == old(query.limitDefinition) && query.offsetDefinition == old(query.offsetDefinition)
+//@   ensures count-only[C05]: limit != nil && old(limit.Offset) == nil && result == nil ==> query.limitDefinition == spec.Atoi(callresult(BuildLiteral, 1, 2)) && spec.AtoiOK(callresult(BuildLiteral, 1, 2))
+//@   ensures count-only-keeps-the-offset[C05]: limit != nil && old(limit.Offset) == nil && result == nil ==> query.offsetDefinition == old(query.offsetDefinition)
+//@   ensures offset-and-count[C05]: limit != nil && old(limit.Offset) != nil && result == nil ==> query.offsetDefinition == spec.Atoi(callresult(BuildLiteral, 1, 1)) && spec.AtoiOK(callresult(BuildLiteral, 1, 1)) && query.limitDefinition == spec.Atoi(callresult(BuildLiteral, 1, 2)) && spec.AtoiOK(callresult(BuildLiteral, 1, 2))
+//@   at-call BuildLiteral assert the-numerals-are-those-of-the-clause[C05]: arg0 == limit.Offset || arg0 == limit.Rowcount
 //@ func BuildJoin
 //@   at-call append:side.postProcessors assert the-deferred-work-of-both-sides-is-adopted-once-they-are-built[C11,C12,C14]: called(BuildFrom)
 //@   at-call Add assert the-calls-the-sides-started-are-awaited[C14]: called(BuildFrom)
